@@ -7,7 +7,6 @@ import (
 	"os"
 	"os/exec"
 	"strings"
-	"sync"
 
 	"github.com/z7zmey/php-parser/internal/verifhook"
 	"github.com/z7zmey/php-parser/pkg/ast"
@@ -89,23 +88,26 @@ func c11Pipeline(s *sched.Sched, j c11Job, rs c11Res) (out string) {
 
 // c11Version: one *Version object per version string for the whole process — a caller hands the same configuration to all
 // its parses (the command-line tool does), so pipelines share the object although their inputs differ.
-var (
-	c11VerMu sync.Mutex
-	c11Vers  = map[string]*version.Version{}
-)
+// (filled once before anything runs and only read afterwards: a lock here would order the goroutines of the free-running pass
+// and hide exactly the races it is there to find)
+var c11Vers = func() map[string]*version.Version {
+	m := map[string]*version.Version{}
+	for maj, mins := range map[uint64]uint64{5: 6, 7: 4} {
+		for min := uint64(0); min <= mins; min++ {
+			m[fmt.Sprintf("%d.%d", maj, min)] = &version.Version{Major: maj, Minor: min}
+		}
+	}
+	return m
+}()
 
 func c11Version(s string) *version.Version {
 	if s == "nil" || s == "" {
 		return nil
 	}
-	c11VerMu.Lock()
-	defer c11VerMu.Unlock()
 	if v, ok := c11Vers[s]; ok {
 		return v
 	}
-	v := parseVer(s)
-	c11Vers[s] = v
-	return v
+	return parseVer(s)
 }
 
 // c11PipelineBuf: the pipeline on the caller's buffer buf (nil: a private copy of the source).
